@@ -3,7 +3,8 @@
 (* C15 judge.  Every record of IOEnv.OBS is one construction performed on  *)
 (* a FRESH Environment of the real library, projected to JSON:             *)
 (*   fam   "num" | "exact" | "eq" | "big"                                  *)
-(*   id    case number;  i, j  operand indices (family "eq", else 0)        *)
+(*   id    case number;  i, j  operand indices (family "eq", else 0);       *)
+(*         m  position in OBS of the record of Equals(b, a) (family "eq")   *)
 (*   e     the expression (projected from the FNode that was built; the     *)
 (*         enumerated description when the construction was rejected)       *)
 (*   ok    the construction returned;  exc  exception class ("" if ok)      *)
@@ -66,17 +67,16 @@ JudgeExact(o) ==
         /\ (o.t2 = o.t \/ Fail(o, "EntryPoints", o.e.op, "-", ZERO))
 
 \* ---------- equality: accepted iff the mirrored equality is accepted ----------
-EqIdx == TLCEval([p \in {<<Obs[x].i, Obs[x].j>> : x \in {y \in DOMAIN Obs : Obs[y].fam = "eq"}} |->
-                    CHOOSE x \in DOMAIN Obs : Obs[x].fam = "eq" /\ Obs[x].i = p[1] /\ Obs[x].j = p[2]])
 PairFeat(ta, tb) == ta.k \o "," \o tb.k \o
    (IF ta.k = "user" /\ tb.k = "user"
     THEN (IF Related(Decl, ta.name, tb.name) THEN ":related" ELSE ":unrelated") ELSE "")
 JudgeEq(o) ==
    LET ta == TypeRef(Decl, o.e.args[1], <<>>)
        tb == TypeRef(Decl, o.e.args[2], <<>>)
-       m == Obs[EqIdx[<<o.j, o.i>>]]
+       m == Obs[o.m]      \* the record of the mirrored construction (position given by the driver, checked here)
        wf == EqWellFormed(Decl, ta, tb)
-   IN \* reported once per unordered pair, on the accepted orientation
+   IN /\ ((m.fam = "eq" /\ m.i = o.j /\ m.j = o.i) \/ Fail(o, "Mirror", "-", "-", ZERO))
+      \* reported once per unordered pair, on the accepted orientation
       /\ (~(o.ok /\ ~m.ok) \/ Fail(o, "EqSym", PairFeat(ta, tb), m.exc, ZERO))
       /\ (IF ~EqSpecified(ta, tb) THEN PrintT(<<"U", o.id>>)
           ELSE o.ok = wf \/ Fail(o, "EqRef", PairFeat(ta, tb), IF o.ok THEN "accepted" ELSE "rejected", ZERO))
